@@ -71,8 +71,15 @@ def scan_forbidden():
     return hits
 
 
-def theorems_of(pid):
-    """Fully qualified names of the theorems in Props/<pid>.lean (property theorems + lemmas)."""
+def theorems_of(pid, files=None):
+    """Fully qualified names of the theorems in Props/<pid>.lean (+ shared proof files named by the property module)."""
+    out = []
+    for f in (files or [pid]):
+        out += _theorems_in(f)
+    return out
+
+
+def _theorems_in(pid):
     path = os.path.join(LEAN, "Ufo2ftModel", "Props", f"{pid}.lean")
     if not os.path.exists(path):
         return []
@@ -95,11 +102,11 @@ def lake_build(target="Ufo2ftModel"):
     return rc == 0, out
 
 
-def audit(pid, names):
+def audit(pid, names, files=None):
     """#print axioms for each theorem; returns {name: [axioms]} or raises Infra."""
     if not names:
-        return {}
-    src = f"import Ufo2ftModel.Props.{pid}\n" + "".join(f"#print axioms {n}\n" for n in names)
+        return {}, "", 0
+    src = "".join(f"import Ufo2ftModel.Props.{f}\n" for f in (files or [pid])) + "".join(f"#print axioms {n}\n" for n in names)
     path = os.path.join(LEAN, f".audit_{pid}_{os.getpid()}.lean")
     open(path, "w").write(src)
     try:
@@ -115,24 +122,24 @@ def audit(pid, names):
     return res, out, rc
 
 
-def leanchecker(pid):
-    rc, out = sh(["lake", "env", "leanchecker", f"Ufo2ftModel.Props.{pid}"], cwd=LEAN, timeout=3000)
+def leanchecker(files):
+    rc, out = sh(["lake", "env", "leanchecker"] + [f"Ufo2ftModel.Props.{f}" for f in files], cwd=LEAN, timeout=3000)
     return rc == 0, out[-2000:]
 
 
-def proof_obligations(pid, tier):
+def proof_obligations(pid, tier, files=None):
     """returns dict(obligations, discharged, problems[list of str], theorems)"""
     info = {"obligations": 0, "discharged": 0, "problems": [], "theorems": []}
     ok, out = lake_build()
     if not ok:
         info["problems"].append("lake build failed: " + out[-1500:])
-    names = theorems_of(pid)
+    names = theorems_of(pid, files)
     info["obligations"] = len(names)
     hits = scan_forbidden()
     if hits:
         info["problems"].append("forbidden constructs: " + "; ".join(hits[:5]))
     if ok:
-        res, out, rc = audit(pid, names)
+        res, out, rc = audit(pid, names, files)
         good = []
         for n in names:
             if n not in res:
@@ -144,7 +151,7 @@ def proof_obligations(pid, tier):
         info["discharged"] = len(good) if not hits else 0
         info["theorems"] = good
         if tier == "thorough":
-            ok2, out2 = leanchecker(pid)
+            ok2, out2 = leanchecker(files or [pid])
             info["leanchecker"] = "ok" if ok2 else out2
             if not ok2:
                 info["problems"].append("leanchecker failed: " + out2[-500:])
@@ -225,7 +232,7 @@ def evaluate(mod, cases, jobs=None):
             raise Infra(f"driver error: {rep['error']} on {canon(r['in'])[:300]}")
         cmpf = getattr(mod, "agree", None)
         ag = cmpf(r, rep) if cmpf else canon(rep["model"]) == canon(r["obs"])
-        results.append({"req": r, "model": rep["model"], "agree": ag, "holds": rep["holds"]})
+        results.append({"req": r, "model": rep["model"], "agree": ag, "holds": rep["holds"], "info": rep.get("info")})
     return results, {"impl_s": round(t1 - t0, 2), "model_s": round(t2 - t1, 2)}
 
 
@@ -263,7 +270,7 @@ def write_replay(pid, seed, tier, kind, theorem, res, extra=None):
         if res is not None:
             r = res["req"]
             f.write(json.dumps({"case": r["case"], "op": r["op"], "in": r["in"], "obs": r["obs"],
-                                "model": res["model"], "agree": res["agree"], "holds": res["holds"]}) + "\n")
+                                "model": res["model"], "agree": res["agree"], "holds": res["holds"], "info": res.get("info")}) + "\n")
     return path
 
 
@@ -323,7 +330,7 @@ def _run(mod, pid, a, seed, t0):
         lines = [json.loads(l) for l in open(a.replay)]
         if len(lines) < 2:
             print(f"replay {a.replay}: header only ({lines[0].get('kind')}); theorem {lines[0].get('theorem')}")
-            po = proof_obligations(pid, "quick")
+            po = proof_obligations(pid, "quick", getattr(mod, "PROOF_FILES", None))
             if po["problems"]:
                 print(f"VIOLATION property={pid} replay={a.replay} no-failing-input-found")
                 return 1
@@ -342,7 +349,7 @@ def _run(mod, pid, a, seed, t0):
             return 1
         return 0
 
-    po = proof_obligations(pid, tier)
+    po = proof_obligations(pid, tier, getattr(mod, "PROOF_FILES", None))
     rng = random.Random(f"{seed}-{pid}")
     n = a.n or mod.N[tier]
     # corpus first
